@@ -124,6 +124,7 @@ class HTTPProtocol(BaseGopherProtocol):
         return self.getrenderstr(entry, url)
 
     def getrenderstr(self, entry, url):
+        url = html.escape(url)
         retstr = "<TR><TD>"
         retstr += self.getimgtag(entry)
         retstr += "</TD>\n<TD>&nbsp;"
